@@ -291,7 +291,15 @@ class Engine(osproxy.Sink):
         self.ctx, self.rng, self.kind, self.tier = ctx, rng, kind, tier
         self.fprng = fprng
         self.with_fp = with_fp
-        self.root = tempfile.mkdtemp(prefix='vf-')
+        self.base = tempfile.mkdtemp(prefix='vf-')
+        self.root = self.base
+        if rng.random() < 0.25:
+            # the Treadmill root is reached through a symlink whose target lies at another depth
+            # (an install that links /var/tmp/treadmill to a volume): textual and physical paths differ
+            os.makedirs(os.path.join(self.base, 'vol', 'data', 'treadmill'))
+            os.symlink(os.path.join('vol', 'data', 'treadmill'), os.path.join(self.base, 'tm'))
+            self.root = os.path.join(self.base, 'tm')
+            ctx.count('root_via_symlink_cases')
         self.ad = ADAPTERS[kind](self.root, rng, tier)
         self.ref = model.Ref(self.ad.foreign)
         self.alive = set()
@@ -308,7 +316,7 @@ class Engine(osproxy.Sink):
     # -- lifecycle --------------------------------------------------------
     def close(self):
         osproxy.PROXY.set_sink(None)
-        shutil.rmtree(self.root, ignore_errors=True)
+        shutil.rmtree(self.base, ignore_errors=True)
 
     def violate(self, mech, msg, witness=None, call='end'):
         top = self.stack[0] if self.stack else self.last_top
